@@ -86,6 +86,16 @@ type script struct {
 	implVal   cty.Value
 	refine    bool
 	panicKind int
+
+	// refineExtra (only with refine): RefineResult also declares bounds that the
+	// Impl result honours: a number range [numLo, numHi] for a number result, or a
+	// length range [lenLo, lenHi] for a list / map result (see admitExtra).
+	refineExtra  bool
+	numLo, numHi cty.Value
+	lenLo, lenHi int
+	// viaDesc: the function under test is obtained through WithNewDescriptions
+	// (a second route to a Function with the same specification).
+	viaDesc bool
 }
 
 func (s *script) paramFor(i int) *pspec {
@@ -130,6 +140,16 @@ func (s *script) String() string {
 	}
 	if s.refine {
 		b.WriteString(" RefineResult=NotNull")
+		if s.refineExtra {
+			if s.retType == cty.Number {
+				fmt.Fprintf(&b, "+NumberRangeInclusive(%#v,%#v)", s.numLo, s.numHi)
+			} else {
+				fmt.Fprintf(&b, "+CollectionLength(%d..%d)", s.lenLo, s.lenHi)
+			}
+		}
+	}
+	if s.viaDesc {
+		b.WriteString(" via=WithNewDescriptions")
 	}
 	return b.String()
 }
@@ -256,7 +276,79 @@ func (s *script) build(log *spyLog) function.Function {
 		return out, nil
 	}
 	if s.refine {
-		spec.RefineResult = func(b *cty.RefinementBuilder) *cty.RefinementBuilder { return b.NotNull() }
+		spec.RefineResult = s.refineWith
 	}
-	return function.New(spec)
+	fn := function.New(spec)
+	if s.viaDesc {
+		descs := make([]string, len(s.params))
+		for i := range descs {
+			descs[i] = fmt.Sprintf("parameter %d", i)
+		}
+		if s.varp != nil && len(s.params)%2 == 0 {
+			descs = append(descs, "the rest") // both accepted lengths are used
+		}
+		fn = fn.WithNewDescriptions("described", descs)
+	}
+	return fn
+}
+
+// refineWith is the declared RefineResult callback.
+func (s *script) refineWith(b *cty.RefinementBuilder) *cty.RefinementBuilder {
+	b = b.NotNull()
+	if s.refineExtra {
+		if s.retType == cty.Number {
+			b = b.NumberRangeInclusive(s.numLo, s.numHi)
+		} else {
+			b = b.CollectionLengthLowerBound(s.lenLo).CollectionLengthUpperBound(s.lenHi)
+		}
+	}
+	return b
+}
+
+// admitExtra decides whether the script may declare the extra refinement, and
+// chooses bounds that every result of the scripted Impl honours (the bounds are
+// never equal, so a refined unknown result stays unknown). It is only declared
+// for a fixed number / list / map return type whose scripted Impl value is
+// known (so that it carries no refinements of its own that could contradict).
+func (s *script) admitExtra() bool {
+	if !s.refine || s.typeMode != tmFixed || s.implMode == imFirstArg {
+		return false
+	}
+	ty := s.retType
+	var iv cty.Value
+	haveVal := false
+	if s.implMode == imValue {
+		iv, _ = s.implVal.Unmark()
+		if !iv.IsKnown() || iv.IsNull() {
+			return false
+		}
+		haveVal = iv.Type().Equals(ty) || (ty.IsListType() && iv.Type().IsListType()) || (ty.IsMapType() && iv.Type().IsMapType())
+	}
+	switch {
+	case ty == cty.Number:
+		s.numLo, s.numHi = cty.NumberIntVal(-3), cty.NumberIntVal(1000)
+		if haveVal {
+			f := iv.AsBigFloat()
+			if f.IsInf() {
+				return false
+			}
+			one := cty.NumberIntVal(1)
+			s.numLo, s.numHi = iv.Subtract(one), iv.Add(one)
+			if s.numLo.AsBigFloat().Cmp(f) >= 0 || s.numHi.AsBigFloat().Cmp(f) <= 0 {
+				return false
+			}
+		}
+		return true
+	case ty.IsListType() || ty.IsMapType():
+		s.lenLo, s.lenHi = 0, 7
+		if haveVal {
+			n := iv.LengthInt()
+			s.lenLo, s.lenHi = n, n+2
+			if n > 0 && n%2 == 0 {
+				s.lenLo = n - 1
+			}
+		}
+		return true
+	}
+	return false
 }
